@@ -284,10 +284,11 @@ def obligations(tier, seed):
                 r["status"] = "violated-duplicate"
             seen.add(r["key"])
     b, viol, reach, bad = _read_error(core)
-    if bad or not all(reach.values()):
+    reach_l = R.live_reach(viol, reach, bad)
+    if bad or not all(reach_l):
         out.append(R.Result(engine="mirsym", name="kernel:ErrorFromBack::read_error", kind="kernel", status="unsupported" if bad else "vacuous", detail=str(bad[:1] or {k: len(v) for k, v in reach.items()})[:300], bodies=[b.name]))
     else:
-        out.append(R.decide("kernel:ErrorFromBack::read_error:cause-not-consumed", "kernel", z3.Or(*viol) if viol else z3.BoolVal(False), [z3.Or(*v) for v in reach.values()], bodies=[b.name],
+        out.append(R.decide("kernel:ErrorFromBack::read_error:cause-not-consumed", "kernel", z3.Or(*viol) if viol else z3.BoolVal(False), [z3.Or(*v) for v in reach_l], bodies=[b.name],
                             desc="reading the disconnect cause returns RestartNeeded(that cause) and leaves it stored, so every outstanding and later call, and every on_disconnect(), "
                                  "gets the cause - never the 'cause unknown' placeholder - once it was recorded", bounds="cause recorded / not recorded", keydetail="cause-consumed",
                             replay=dict(scenario="c09_cause_for_everyone", vars={}, fixed={}, region=z3.BoolVal(True))))
